@@ -94,12 +94,15 @@ impl S3 for FileSystem {
         let file_metadata = try_!(fs::metadata(&src_path).await);
         let last_modified = Timestamp::from(try_!(file_metadata.modified()));
 
-        let _ = try_!(fs::copy(&src_path, &dst_path).await);
+        // copying a file onto itself would truncate it before it is read
+        let same_object = src_path == dst_path;
+        if same_object.not() {
+            let _ = try_!(fs::copy(&src_path, &dst_path).await);
+        }
 
         debug!(from = %src_path.display(), to = %dst_path.display(), "copy file");
 
         // the copy takes over the user metadata and the checksums of the source, not those of an object it replaces
-        let same_object = src_path == dst_path;
         if same_object.not() {
             self.delete_object_side_files(&input.bucket, &input.key)?;
         }
